@@ -95,6 +95,9 @@ pub struct Verdict {
 pub fn memory_risk(rr: &RefRun, src: &str) -> bool {
     match rr.unspecified.as_deref() {
         Some("reference step budget exhausted") => true,
+        // a container that contains itself: printing it is excluded, hashing / comparing it are recorded findings,
+        // each of which ends p2sh with a native stack overflow; the templates of C08 cover them deliberately
+        Some(u) if u == SELF_CONTAINING => true,
         Some(u) => u.starts_with("operator * on") || src.contains(" * "),
         None => false,
     }
